@@ -6,7 +6,7 @@ from __future__ import annotations
 import json
 
 DEFAULT_WEIGHTS = {"step": 6, "wait": 2, "callback": 1, "wfc": 1, "invoke": 1, "wfcond": 1,
-                   "child": 2, "parallel": 2, "map": 1, "log": 1}
+                   "child": 2, "parallel": 2, "map": 1, "log": 1, "pause": 0}
 
 USER_ERRS = ["ValueError", "RuntimeError", "UserErrA", "UserErrB", "TimeoutError"]
 
@@ -91,7 +91,7 @@ def gen_fn(rng, prof, allow_fail=True):
         att = [{"do": "ret", "v": vspec()}]
     else:
         mode = rng.choice(["k-then-ok", "k-then-ok", "always", "nonretry"])
-        cls = rng.choice(USER_ERRS)
+        cls = rng.choice(USER_ERRS * 3 + ["TypeError"])
         msg = rng.choice(["boom", "transient glitch", "x", "rate exceeded (429)", "access [denied]", "axb", "xx", ""])
         if mode == "k-then-ok":
             k = rng.randrange(1, 4)
@@ -159,6 +159,8 @@ class Gen:
         o = pick(rng, self.prof.get("ext_outcomes", {"succeed": 60, "fail": 15, "cancel": 5, "stop": 5, "timeout": 8}))
         sc = {"outcome": o, "delay": rng.choice(self.prof.get("ext_delays", [0, 0.05, 0.5, 2, 10, 100]))}
         if kind == "invoke":
+            if rng.random() < 0.3:
+                sc["pending_for"] = rng.choice([0.3, 3, 30, 300])  # reported PENDING before it is reported STARTED
             if o == "cancel":
                 sc["outcome"] = "stop"
             sc["payload"] = json.dumps(gen_json_value(rng))
@@ -187,10 +189,13 @@ class Gen:
             return st
         self.budget -= 1
         if k == "wait":
-            return {"op": "wait", "s": rng.choice([1, 1, 2, 5, 60, 3600])}
+            return {"op": "wait", "s": rng.choice([1, 1, 2, 5, 60, 3600] * 4 + [40_000_000])}  # 40e6 s: more than a year
         if k == "log":
             self.budget += 1
             return {"op": "log"}
+        if k == "pause":
+            self.budget += 1
+            return {"op": "pause", "s": rng.choice([0.05, 0.5, 2.0, 5.0])}
         if k == "callback":
             st = {"op": "callback", "between": []}
             if rng.random() < 0.5:
@@ -242,6 +247,10 @@ class Gen:
             att = [{"do": "ret", "v": s} for s in states]
             if rng.random() < prof.get("check_fail_p", 0.15):
                 att[rng.randrange(n)] = {"do": "raise", "cls": rng.choice(USER_ERRS), "msg": "check failed"}
+            for a in att:
+                b = rng.choice(prof.get("blocks", [0, 0, 0, 0.05, 0.5, 2.0]))
+                if b:
+                    a["block"] = b  # a check that takes time: its START travels alone, a crash can leave the poll STARTED
             strat = [{"cont": rng.choice([0, 1, 1, 3, 30])} for _ in range(n - 1)] + [{"stop": 1}]
             st = {"op": "wfcond", "check": {"attempts": att}, "strategy": strat,
                   "initial": gen_value(rng, 1, prof.get("rich", True))}
